@@ -133,6 +133,9 @@ def check(prop, tier, seed):
         ev, path = simple.run_lab(lab, stims, tag, label)
         simple.validate(prop, 'Trace_Deadline', verdict, ev, path, label, cov, clause_filter=lambda c: c.startswith('C09.') or c in ('NoPanic', 'NoHang'))
         cov['samples'].append({'family': label, 'stimulus': simple.sample_of(stims)})
+    # deadlines of calls that wait for a permit of the server's per-connection concurrency limit (Admission.tla)
+    from . import p_admission
+    p_admission.add_family(prop, tier, seed, verdict, cov, mc, tag)
     return simple.finish(prop, tier, seed, verdict, cov, mc, t0,
                          ['a single leading "+" in a header value is left unconstrained (grpc-go / grpc-java accept it too)',
                           'at an exact tie (latency = deadline) either outcome is accepted',
@@ -148,5 +151,5 @@ def replay(prop, path):
     verdict = core.Verdict(prop)
     cov = {'traces_validated_against_impl': 0, 'samples': []}
     ev, p = simple.run_lab(lab, stims, f'{prop}_replay', 'replay')
-    simple.validate(prop, 'Trace_Deadline', verdict, ev, p, 'replay', cov, clause_filter=lambda c: c.startswith('C09.') or c in ('NoPanic', 'NoHang'))
+    simple.validate(prop, 'Trace_Admission' if lab == 'admission' else 'Trace_Deadline', verdict, ev, p, 'replay', cov, clause_filter=lambda c: c.startswith('C09.') or c in ('NoPanic', 'NoHang'))
     return verdict.finish()
